@@ -20,18 +20,21 @@ THEOREMS = [
     "C13.frame_after_replacement",
     "C13.frame_untouched_when_not_replaced",
     "C13.frame_one_hole",
+    "C13.frame_top_level",
     "C13.frame_function_body_never_visited",
     "C13.slot_statement",
     "C13.slot_parameter",
+    "C13.slot_parameter_content",
     "C13.slot_eval_keeps_name",
     "C13.slot_wrap",
     "C13.alignment",
-    "C13.alignment_index_is_right_aligned",
     "C13.alignment_self_cls_cancels",
+    "C13.alignment_index_is_right_aligned",
+    "C13.alignment_shared_name",
     "C13.sync_property_sound",
     "C13.find_attr_correct_partial",
-    "C13.not_C13_frame_full",
     "C13.not_C13_find_full",
+    "C13.not_C13_frame_full",
     "C13.not_C13_slot_param_to_attr",
     "C13.not_C13_frame_docstring",
 ]
@@ -452,7 +455,7 @@ def _oracle(case, res):
         exp.append((None, wrap_expr(case["wrap"], literal_expr(ev["items"])), None))
         in_cands = []
     else:
-        in_cands = resolve(in_tree, ip)
+        in_cands = [c for c in resolve(in_tree, ip) if c.get("list") not in ("posonlyargs", "vararg", "kwarg")]
         if not in_cands:
             return ("skipped:invalid-input-path" if not fails else "failed"), fails
         for c in in_cands:
@@ -850,6 +853,7 @@ def run(chk: core.Check) -> int:
     model = core.model_batch(reqs) if core.DRIVER.exists() else None
     # canonicalising the model's modules needs black: do it in parallel
     n_dis = n_cmp = n_skip = 0
+    stale = []
     dist = {"stream": {}, "in_kind": {}, "out_kind": {}, "result": {}, "oracle": {}, "wrap": {"none": 0, "template": 0}, "eval": {"on": 0, "off": 0},
             "model_domain_excluded": {}, "model_flags": {"phantom": 0, "poisoned": 0}, "shared_name": 0, "same_path_defs": 0}
     if model is not None:
@@ -868,35 +872,54 @@ def run(chk: core.Check) -> int:
         dist["eval"]["on" if c["eval"] else "off"] += 1
         if c["ip"].split(".")[-1].strip() == c["op"].split(".")[-1].strip():
             dist["shared_name"] += 1
+        # ---- correspondence -----------------------------------------------------------------------------
+        verdict = "not-run"
+        if model is not None:
+            m = model[k]
+            for fl in ("phantom", "poisoned"):
+                if m.get(fl):
+                    dist["model_flags"][fl] += 1
+            why = in_model_domain(c, r)
+            d = cmp_out[k]
+            if why is not None and d is None:
+                # the assumption is violated but did not matter here (e.g. the input lookup already failed)
+                n_cmp += 1
+                verdict = "agrees"
+            elif why is not None:
+                verdict = "outside-domain:" + why
+                dist["model_domain_excluded"][why] = dist["model_domain_excluded"].get(why, 0) + 1
+            elif d in ("unsupported", "arg-in-statement-list"):
+                verdict = d
+                n_skip += 1
+                dist["model_domain_excluded"][d] = dist["model_domain_excluded"].get(d, 0) + 1
+            else:
+                n_cmp += 1
+                verdict = "agrees" if d is None else "differs"
+                if d is not None:
+                    n_dis += 1
+                    chk.disagreement("C13 correspondence: sync_properties", {x: c[x] for x in ("in_src", "out_src", "ip", "op", "wrap", "eval")}, d[0], d[1])
         # ---- oracle on the real output ------------------------------------------------------------------
+        # every failure signature carries the model's verdict on the same case: a known finding is a deviation the model
+        # reproduces; the same kind of deviation on a case where model and code differ is a new violation
         status, fails = r["oracle"]
         dist["oracle"][status] = dist["oracle"].get(status, 0) + 1
         chk.count(("sync", c["in_src"], c["out_src"], c["ip"], c["op"], c["wrap"], c["eval"]), status in ("ok", "failed"))
+        causes = set()
         for sig, what in fails:
-            chk.failure(sig, what, {"fn": "sync", "case": {x: c[x] for x in ("in_src", "out_src", "ip", "op", "wrap", "eval")}, "sig": sig})
+            sig = dict(sig, model=verdict)
+            if verdict == "outside-domain:location-clash-inside-opaque-node" and sig.get("cause") != "ast_parse-docstring-reindent":
+                # the code left the model because of the clash: that is what explains this failure
+                sig = {x: y for x, y in sig.items() if x not in ("found", "why")}
+                sig["cause"] = "string-constant-clash"
+            causes.add(sig.get("cause") or sig.get("where") or sig.get("kind"))
+            chk.failure(sig, what, {"fn": "sync", "case": {x: c[x] for x in ("in_src", "out_src", "ip", "op", "wrap", "eval")}, "sig": {x: y for x, y in sig.items() if x != "model"}})
+        if st == "corpus" and c.get("expect") and c["expect"] not in causes:
+            chk.notes.append("corpus witness %s no longer fails with %r (got %s)" % (c["id"], c["expect"], sorted(map(str, causes)) or status))
+            stale.append(c["id"])
         if k < len(corpus) + 3 and st != "corpus":
             chk.sample({"ip": c["ip"], "op": c["op"], "wrap": c["wrap"], "eval": c["eval"], "output_before": c["out_src"][:400], "result": r["result"],
                         "output_after": r["after"][:400] if r["result"] == "ok" else None, "oracle": status})
-        # ---- correspondence -----------------------------------------------------------------------------
-        if model is None:
-            continue
-        m = model[k]
-        for fl in ("phantom", "poisoned"):
-            if m.get(fl):
-                dist["model_flags"][fl] += 1
-        why = in_model_domain(c, r)
-        if why is not None:
-            dist["model_domain_excluded"][why] = dist["model_domain_excluded"].get(why, 0) + 1
-            continue
-        d = cmp_out[k]
-        if d in ("unsupported", "arg-in-statement-list"):
-            n_skip += 1
-            dist["model_domain_excluded"][d] = dist["model_domain_excluded"].get(d, 0) + 1
-            continue
-        n_cmp += 1
-        if d is not None:
-            n_dis += 1
-            chk.disagreement("C13 correspondence: sync_properties", {x: c[x] for x in ("in_src", "out_src", "ip", "op", "wrap", "eval")}, d[0], d[1])
+    chk.coverage["corpus_witnesses"] = {"run": len(corpus), "stale (no longer failing on the real code; reported, not fatal)": stale}
     chk.oblige("correspondence: sync_properties (real files) = SyncProps.syncProperties + emit canonicaliser on %d cases (%d outside the model's template/eval domain)" % (n_cmp, n_skip),
                "correspondence", model is not None and n_dis == 0 and n_cmp > 0, "%d disagreements" % n_dis)
     chk.coverage["distribution"] = dist
